@@ -155,6 +155,7 @@ class Rig:
         self.transport: Any = None
         self.notice: dict[int, list[float]] = {}
         self.delivered: list[dict] = []
+        self.cmds: list[dict] = case.get("cmds") or CMDS
         self.cmd_owner: dict[int, int] = {}
         self.cmds_alive: list[Any] = []
 
@@ -218,7 +219,12 @@ class Rig:
             return
         if owner < 0:
             return
-        c = CMDS[self.case["callers"][owner]["cmd"]]
+        c = self.cmds[self.case["callers"][owner]["cmd"]]
+        for ev in self.case.get("script", []):  # explicit, labelled deliveries relative to a write (C06)
+            if ev["caller"] == owner and ev["attempt"] == attempt:
+                self.deliver_at(t + ev["d"], ev.get("hops", 0), ev["frame"], set(ev["labels"]))
+        if self.case.get("script_only"):
+            return
         fate = self.case.get("fates", {}).get(f"{owner}:{attempt}", {"echo": {"d": 0.01, "hops": 0}, "reply": {"d": 0.03, "hops": 0}})
         cf = cmd_frame(c)
         e = fate.get("echo")
@@ -242,7 +248,7 @@ class Rig:
         ALL commands of the case). A null 0418 entry is, by the protocol, the reply to an RQ|0418 for any log index."""
         out = {"reply-to:" + cmd_frame(c)}
         for spec in self.case["callers"]:
-            c2 = CMDS[spec["cmd"]]
+            c2 = self.cmds[spec["cmd"]]
             if reply_frame(c2, self.gwy_id) == rf:
                 out.add("reply-to:" + cmd_frame(c2))
             if c["code"] == "0418" and c["reply"] == self.NULL_0418 and c2["code"] == "0418" and c2["verb"] == "RQ" and c2["dst"] == c["dst"]:
@@ -286,7 +292,7 @@ class Rig:
         results: dict[int, dict] = {}
 
         async def caller(i: int, spec: dict) -> None:
-            c = CMDS[spec["cmd"]]
+            c = self.cmds[spec["cmd"]]
             cmd = Command(cmd_frame(c))
             qos = QosParams(max_retries=spec["max_retries"], timeout=spec["timeout"], wait_for_reply=spec["wait"])
             self.cmd_owner[id(cmd)] = i
@@ -311,7 +317,7 @@ class Rig:
             rec["tick_done"] = self.tick()
 
         for i, spec in enumerate(case["callers"]):
-            self.frames_by_caller[i] = cmd_frame(CMDS[spec["cmd"]])
+            self.frames_by_caller[i] = cmd_frame(self.cmds[spec["cmd"]])
 
         def start(i: int, spec: dict) -> None:
             self.tasks[i] = loop.create_task(caller(i, spec))
@@ -319,12 +325,12 @@ class Rig:
         for i, spec in enumerate(case["callers"]):
             loop.call_at(spec["t"], start, i, spec)
         for fo in case.get("foreign", []):
-            c = CMDS[case["callers"][fo["of"] % len(case["callers"])]["cmd"]]
+            c = self.cmds[case["callers"][fo["of"] % len(case["callers"])]["cmd"]]
             fr = near_miss(c, self.gwy_id, fo["kind"])
             if fr:
                 lbls = {"foreign:" + fo["kind"]}
                 for spec in case["callers"]:  # labels are computed against ALL commands of the case
-                    c2 = CMDS[spec["cmd"]]
+                    c2 = self.cmds[spec["cmd"]]
                     if fr == reply_frame(c2, self.gwy_id):
                         lbls.add("reply-to:" + cmd_frame(c2))
                     if fr == echo_frame(c2, self.gwy_id):
@@ -371,7 +377,12 @@ class Rig:
             self.case.setdefault("fates", {})
             self.fail_writes = set()  # scripted write failures belong to the episode, not to the probe
             pi = len(case["callers"])
-            case["callers"].append({"t": loop.time(), "cmd": 1, "prio": 2, "max_retries": 3, "timeout": 20.0, "wait": True})
+            if self.cmds is not CMDS:
+                self.cmds = list(self.cmds) + [CMDS[1]]
+                pcmd = len(self.cmds) - 1
+            else:
+                pcmd = 1
+            case["callers"].append({"t": loop.time(), "cmd": pcmd, "prio": 2, "max_retries": 3, "timeout": 20.0, "wait": True})
             self.frames_by_caller[pi] = cmd_frame(CMDS[1])
             try:
                 start(pi, case["callers"][pi])
